@@ -45,7 +45,9 @@ StepPlan(e) ==
                  [] e.op = "remove"    -> IF e.a >= 1 /\ e.a <= Len(pl.abs) THEN [s |-> TL!RemoveAtPos(pl, e.a), r |-> 1] ELSE [s |-> pl, r |-> 0]
                  [] e.op = "clear"     -> [s |-> TL!PlanClear(pl), r |-> 0]
                  [] e.op = "dataclear" -> [s |-> TL!DataClear(pl), r |-> 0]
+                 [] e.op = "sweep"     -> LET w == TL!Sweep(pl, e.a) IN [s |-> w.s, r |-> Len(w.visited), vis |-> w.visited]
     IN  IF e.r # res.r \/ e.order # OrderTriples(res.s) \/ ~TL!Refines(res.s) \/ ~TL!FreeListOK(res.s)
+           \/ (e.op = "sweep" /\ (e.vis # res.vis \/ ~TL!SweepVisitsAll(pl, e.a)))
         THEN Bad("plan storage differs from the model", [r |-> res.r, order |-> OrderTriples(res.s)], e)
         ELSE pl' = res.s /\ l' = l + 1 /\ Keep /\ UNCHANGED <<bav, arv, bsbuf, bswcur, bsrcur>>
 
